@@ -46,6 +46,9 @@ Definition visit_of (pr : option vprog) : option visit_fn :=
 Definition vcall := (path * key * sview)%type.
 Definition rentry := (path * oref * res oref)%type.   (* reported path, value, what get_path returned *)
 
+Definition enter_obs := (path * key * oref * sview)%type.
+Definition exit_obs := (path * key * nat * list (key * sview))%type.
+
 Record c08_case := mkCase {
   c_in : obj;                       (* the input graph (ids = the harness's numbering of the input's containers) *)
   c_visit : option vprog;
@@ -58,6 +61,7 @@ Record c08_case := mkCase {
   c_qreraise : bool;                (* research(..., reraise=) *)
   c_research : res (list rentry);   (* research(root, query), get_path(root, path) for every entry *)
   c_in_final : obj;
+  c_hooks : option (list enter_obs * list exit_obs);   (* enter/exit calls seen by logging wrappers around the defaults *)
   c_probes : list (path * res oref * bool);  (* get_path(root, p) for arbitrary p; whether default= was returned *)
   c_deepcopy : option obj           (* spec validation: copy.deepcopy(root) (python stdlib, independent of boltons) *)
 }.
@@ -67,6 +71,26 @@ Definition vcall_eqb (a b : vcall) : bool :=
 
 Definition visits_of (lg : list event) : list vcall :=
   flat_map (fun e => match e with EVisit p k v => [(p, k, shallow v)] | _ => [] end) lg.
+
+Definition enters_of (lg : list event) : list enter_obs :=
+  flat_map (fun e => match e with EEnter p k r s => [(p, k, r, s)] | _ => [] end) lg.
+Definition exits_of (lg : list event) : list exit_obs :=
+  flat_map (fun e => match e with EExit p k id items => [(p, k, id, items)] | _ => [] end) lg.
+Definition outcome_log (o : outcome) : list event :=
+  match o with Done _ _ lg | Fail _ lg => lg | OutOfFuel => [] end.
+
+Definition enter_eqb (a b : enter_obs) : bool :=
+  let '(p, k, r, s) := a in let '(p', k', r', s') := b in
+  path_eqb p p' && key_eqb k k' && oref_eqb r r' && sview_eqb s s'.
+Definition exit_eqb (a b : exit_obs) : bool :=
+  let '(p, k, i, l) := a in let '(p', k', i', l') := b in
+  path_eqb p p' && key_eqb k k' && Nat.eqb i i' && list_eqb (pair_eqb key_eqb sview_eqb) l l'.
+Definition hooks_match (o : outcome) (h : option (list enter_obs * list exit_obs)) : bool :=
+  match h with
+  | None => true
+  | Some (en, ex) => list_eqb enter_eqb (enters_of (outcome_log o)) en
+                     && list_eqb exit_eqb (exits_of (outcome_log o)) ex
+  end.
 
 Definition canon_res (r : res obj) : res obj :=
   match r with
@@ -129,7 +153,7 @@ Definition ok_probes (c : c08_case) : bool :=
 
 Definition agree (c : c08_case) : bool :=
   let m := model_remap c in
-  spec_valid c && probes_agree c &&
+  spec_valid c && probes_agree c && hooks_match m (c_hooks c) &&
   res_eqb obj_eqb (outcome_result m) (canon_res (c_out c))
   && list_eqb vcall_eqb (outcome_calls m) (c_calls c)
   && res_eqb (list_eqb rentry_eqb) (model_research c) (c_research c).
@@ -157,6 +181,7 @@ Definition ok_rebuild (c : c08_case) : bool :=
   | None =>
       res_eqb obj_eqb (outcome_result s) (canon_res (c_out c))
       && list_eqb vcall_eqb (outcome_calls s) (c_calls c)
+      && hooks_match s (c_hooks c)        (* enter / exit called once per object, with the right path, key, items *)
   end.
 
 Definition ok_untouched (c : c08_case) : bool :=
